@@ -931,9 +931,9 @@ func (e *SpecEnv) call(x *ECall) Val {
 		v := e.eval(x.Args[0])
 		t := e.fx.eng.resolveType(e.pkg, x.Args[1].String())
 		if cs := e.mode().comps(t); !(len(cs) == 1 && cs[0].kind == "ref") {
-			return e.boxed(t, v.C[1])
+			return e.boxed(t, v.C[len(v.C)-1])
 		}
-		return Val{T: t, C: []string{v.C[1]}}
+		return Val{T: t, C: []string{v.C[len(v.C)-1]}}
 	case "tag":
 		// tag(x): the dynamic type of interface x as a number (0 for nil)
 		v := e.eval(x.Args[0])
